@@ -272,7 +272,7 @@ def table_check(ctx: Ctx, rule: str, f: FuncInfo, paths: list[absint.Path], atom
     seen_rows = set()
     for p in paths:
         obs = observe(p)
-        for val in absint.completions(p, atoms):
+        for val in absint.completions(p, atoms, lambda k, _p=p: absint.entails(ctx.repo, f, _p, k)):
             n += 1
             exp = spec(val)
             if exp is SKIP:
